@@ -59,6 +59,9 @@ CHECKS = {
  "C03": dict(level="exploration", sec="3/C03", technique="exhaustive instruction-word grid per A64 class x boundary-state grid; lifted IL under a reference IL interpreter compared with a reference A64 interpreter written from the Arm ARM pseudocode",
    text="Every control-field value of add/sub immediate/shifted/extended, MOV aliases, all load/store addressing modes incl. pairs, literal, acquire/release and SIMD&FP register forms, all branch kinds; register fields over {0,1,2,30,31} with aliasing; boundary immediates; boundary values squared, all 16 NZCV valuations for conditional branches, both data endiannesses; X0-X30, SP, NZCV, V0-V31, memory, next PC compared (28 k accepted words, 0.95 M states in quick). Values outside the alphabets are not covered.",
    note="Trusted: harness A64 reference interpreter (AddWithCarry, ShiftReg, ExtendReg, DecodeBitMasks), refil. CONSTRAINED UNPREDICTABLE forms skipped; accepted words the reference does not model are counted."),
+ "C19": dict(level="exploration", sec="3/C19", technique="exhaustive lattice of abstract ELF images emitted by an independent ELF writer, loaded at several bases; oracle = the abstract description plus the base-0/base-B differential",
+   text="All combinations of 7 class/endianness/machine targets x segment layouts (vaddr, filesz, memsz>filesz, 4 permission sets, second segment, interleaved non-load headers) x symbol sets (defined/undefined/zero-valued functions, objects, duplicates across symtab/dynsym, a PLT relocation) x entry choices x user entries x 3 bases: exact byte/permission/unmapped image, architecture, endianness, function-entry set, and uniform rebasing of sections, entries, symbols and program entry. The ElfLinker (multi-object relocation) is not covered.",
+   note="Trusted: harness ELF writer (independent of goblin). Relocation processing across several objects is outside this check."),
 }
 NA = []
 def main():
